@@ -16,7 +16,7 @@ package oidc
 
 import (
 	"context"
-	"math/rand"
+	"crypto/rand"
 	"time"
 
 	"github.com/redis/go-redis/v9"
@@ -147,9 +147,7 @@ var (
 
 type (
 	// randomGenerator is a session generator that uses random strings.
-	randomGenerator struct {
-		rand *rand.Rand
-	}
+	randomGenerator struct{}
 
 	// staticGenerator is a session generator that uses static strings.
 	staticGenerator struct {
@@ -162,9 +160,7 @@ type (
 
 // NewRandomGenerator creates a new random session generator.
 func NewRandomGenerator() SessionGenerator {
-	return &randomGenerator{
-		rand: rand.New(rand.NewSource(time.Now().UnixNano())),
-	}
+	return &randomGenerator{}
 }
 
 func (r randomGenerator) GenerateSessionID() string {
@@ -183,11 +179,23 @@ func (r randomGenerator) GenerateCodeVerifier() string {
 	return oauth2.GenerateVerifier()
 }
 
+// generate returns a string of n characters drawn uniformly from the alphanumeric charset using the
+// system's cryptographically secure random source: session IDs, nonces and states must not be predictable
+// from the time of the request or from one another.
 func (r *randomGenerator) generate(n int) string {
 	const charset = "abcdefghijklmnopqrstuvwxyzABCDEFGHIJKLMNOPQRSTUVWXYZ0123456789"
-	b := make([]byte, n)
-	for i := range b {
-		b[i] = charset[r.rand.Intn(len(charset))]
+	// largest multiple of len(charset) that fits in a byte; bytes above it are discarded to avoid modulo bias
+	const limit = 256 - 256%len(charset)
+	b := make([]byte, 0, n)
+	buf := make([]byte, 2*n)
+	for len(b) < n {
+		// crypto/rand.Read never returns an error on supported platforms (it aborts the program instead)
+		_, _ = rand.Read(buf)
+		for _, v := range buf {
+			if int(v) < limit && len(b) < n {
+				b = append(b, charset[int(v)%len(charset)])
+			}
+		}
 	}
 	return string(b)
 }
